@@ -64,6 +64,8 @@ pub struct SlotSpec {
     pub ufcs_idents: Vec<String>,
     pub no_ufcs_idents: Vec<String>,
     pub expand: Vec<String>,
+    pub retarget: Vec<(String, String)>,
+    pub lift_return: Option<String>,
     pub tline: usize,
 }
 
@@ -177,7 +179,17 @@ fn run(repo: &str, template: &str, shimdir: &str, logv: &mut Value) -> Result<St
             }
             "retarget" => {
                 let (a, b) = rest.split_once("=>").ok_or_else(|| Undecided(format!("template line {}: bad retarget", tline)))?;
-                retarget.push((a.trim().to_string(), b.trim().to_string()));
+                if let Some(s) = cur.as_mut() {
+                    in_sig = false;
+                    s.retarget.push((a.trim().to_string(), b.trim().to_string()));
+                } else {
+                    retarget.push((a.trim().to_string(), b.trim().to_string()));
+                }
+            }
+            "lift_return" => {
+                let s = cur.as_mut().ok_or_else(|| Undecided(format!("template line {}: lift_return outside slot", tline)))?;
+                in_sig = false;
+                s.lift_return = Some(rest.trim().to_string());
             }
             "type" => {
                 if idx.is_none() {
